@@ -502,6 +502,54 @@ def check_repo_doc(path):
     return fails
 
 
+def check_ladder_doc(case):
+    """A ladder HUGR's document, re-spelled the way a foreign writer may (order edges without offsets,
+    another encoder string), is loaded: the loaded links must be the image of the document's edges under
+    the reference port layout (R2), and saving again must give back nodes, metadata and the edge multiset."""
+    from collections import Counter
+
+    from hugr.hugr import Hugr
+    from mc.drivers import ladder
+    from mc.ref import hugrjson as H
+
+    fails = []
+    fam = case[0]
+    doc = json.loads(ladder.build(case).to_json())
+    lay = [H.layout(n) for n in doc["nodes"]]
+    expected = Counter()
+    foreign_edges = []
+    for (a, ao), (b, bo) in doc["edges"]:
+        is_order = ao is not None and ao == lay[a].order_off("out") and bo == lay[b].order_off("in")
+        if is_order:
+            expected[(a, -1, b, -1)] += 1
+            foreign_edges.append([[a, None], [b, None]])
+        else:
+            expected[(a, ao, b, bo)] += 1
+            foreign_edges.append([[a, ao], [b, bo]])
+    fdoc = {**doc, "edges": foreign_edges, "encoder": "foreign-writer v9"}
+    try:
+        h2 = Hugr.load_json(json.dumps(fdoc))
+    except Exception as e:  # noqa: BLE001
+        return [(f"ladder-doc:{fam}:load-raised", f"{case}: {type(e).__name__}: {str(e)[:200]}")]
+    got = Counter((s_.node.idx, s_.offset, t_.node.idx, t_.offset) for s_, t_ in h2.links())
+    if got != expected:
+        extra, missing = got - expected, expected - got
+        kind = "order" if any(k[1] == -1 for k in list(extra) + list(missing)) else "value"
+        fails.append((f"ladder-doc:{fam}:loaded-links:{kind}", f"{case}: loaded links differ from the document's edges under the reference port layout: extra={dict(extra)} missing={dict(missing)}"))
+    r = _try(lambda: json.loads(h2.to_json()))
+    if r[0] != "ok":
+        return fails + [(f"ladder-doc:{fam}:save-raised", f"{case}: {r[1]}")]
+    out = r[1]
+    if jstrict([norm(n) for n in out["nodes"]]) != jstrict([norm(n) for n in doc["nodes"]]):
+        bad = [i for i, (x, y) in enumerate(zip(out["nodes"], doc["nodes"])) if jstrict(norm(x)) != jstrict(norm(y))]
+        fails.append((f"ladder-doc:{fam}:nodes", f"{case}: nodes {bad[:5]} changed by load+save"))
+    if sorted(map(json.dumps, out["edges"])) != sorted(map(json.dumps, doc["edges"])):
+        fails.append((f"ladder-doc:{fam}:edges", f"{case}: edge multiset changed by load+save (order edges were written without offsets)"))
+    if jstrict([m or None for m in (out.get("metadata") or [])]) != jstrict([m or None for m in (doc.get("metadata") or [])]):
+        fails.append((f"ladder-doc:{fam}:metadata", f"{case}: metadata changed by load+save"))
+    return fails
+
+
 # ------------------------------------------------------------------ driver
 def _work(item):
     kind, spec = item
@@ -516,6 +564,8 @@ def _work(item):
             fs = check_value(spec)
         elif kind == "op":
             fs = check_op(spec)
+        elif kind == "ladder-doc":
+            fs = check_ladder_doc(spec)
         elif kind == "foreign-op":
             fs = check_foreign_op(*spec)
         elif kind == "foreign-order":
@@ -560,6 +610,9 @@ def items_for(tier):
                 continue  # the reference encoder has no document for embedded function bodies
             items.append(("foreign-op", [o, metas[i % 3]]))
     items += [("foreign-order", i) for i in range(len(_order_docs()))]
+    from mc.drivers import ladder
+
+    items += [("ladder-doc", c) for c in ladder.cases_for("thorough" if tier == "xdeep" else "quick")]
     repo = os.environ.get("HUGR_REPO", "/repo")
     for p in sorted(glob.glob(f"{repo}/resources/test/*.json")):
         try:
